@@ -29,6 +29,7 @@ type Stats struct {
 	Classes     map[string]int64
 	Samples     []interface{}
 	hashes      map[uint64]struct{}
+	extra       int64 // distinct non-trivial cases counted by an enumerator that cannot repeat a case
 	nSampleSeen int
 }
 
@@ -112,6 +113,13 @@ func (s *Stats) NonTrivialHash(h uint64) bool {
 	return true
 }
 
+// AddDistinct adds n non-trivial cases that are distinct by construction (exhaustive enumeration).
+func (s *Stats) AddDistinct(n int64) {
+	s.mu.Lock()
+	s.extra += n
+	s.mu.Unlock()
+}
+
 // AddSample stores a sample unconditionally (bounded).
 func (s *Stats) AddSample(v interface{}) {
 	s.mu.Lock()
@@ -124,6 +132,7 @@ func (s *Stats) AddSample(v interface{}) {
 type statsOut struct {
 	Evaluations int64            `json:"evaluations"`
 	Distinct    int              `json:"distinct_nontrivial_in_shard"`
+	Extra       int64            `json:"distinct_by_construction"`
 	Classes     map[string]int64 `json:"classes"`
 	Samples     []interface{}    `json:"samples"`
 }
@@ -139,7 +148,7 @@ func FlushStats() {
 	out := map[string]statsOut{}
 	for id, s := range allStats {
 		s.mu.Lock()
-		out[id] = statsOut{s.Evaluations, len(s.hashes), s.Classes, s.Samples}
+		out[id] = statsOut{s.Evaluations, len(s.hashes), s.extra, s.Classes, s.Samples}
 		buf := make([]byte, 0, 8*len(s.hashes))
 		hs := make([]uint64, 0, len(s.hashes))
 		for h := range s.hashes {
